@@ -150,7 +150,7 @@ Qed.
 Theorem root_create_file_ok rs root path fl mode :
   rfd root -> okd Qfd (root_create_file fz cfg pfuel gh sysctl_ps rs root path fl mode).
 Proof.
-  intro Hr. unfold root_create_file, os.
+  intro Hr. unfold root_create_file, os. destruct (CREATE_FILE_REFUSES_OPATH && has fl O_PATH); [constructor; exact I|].
   eapply okp_bindR; [apply parent_and_name_ok; exact Hr| |intro; exact I]. intros [dir name] [Hd Hn]. cbn in Hd, Hn.
   eapply okp_bind; [apply okp_map_err, w_openat_ok; assumption|]. intros r Hfd.
   apply close_ret_ok; [exact Hd|exact Hfd].
